@@ -140,6 +140,15 @@ v("bd-operator-problem-gets-numeric-solver", B, "            solve_sylvester = s
 v("bd-postprocessing-unwraps-matrix-problems", B, "                if (\n                    scalar_input\n                    and isinstance(result, sympy.MatrixBase)\n                    and result.shape == (1, 1)\n                ):", "                if (\n                    isinstance(result, sympy.MatrixBase)\n                    and result.shape == (1, 1)\n                ):", ["C07"])
 v("bd-postprocessing-order-swapped", B, 'create_postprocessing_eval(outputs[name]) for name in ["H_tilde", "U", "U†"]', 'create_postprocessing_eval(outputs[name]) for name in ["H_tilde", "U†", "U"]', ["C07", "C01"])
 v("bd-diagonal-from-unconverted-h", B, "        diagonal = _extract_diagonal(H, atol, use_implicit, operators)", "        diagonal = _extract_diagonal(H, atol, use_implicit)", ["C07"])
+v("ok-bd-diag-reads-series-by-statement", B, "        def diag(x, index):\n            x = x[index] if isinstance(x, BlockSeries) else x\n            if index[0] not in to_keep:\n                return x\n",
+  "        def diag(x, index):\n            if isinstance(x, BlockSeries):\n                x = x[index]\n            if index[0] not in to_keep:\n                return x\n", [])
+v("bd-diag-reads-transposed-block", B, "        def diag(x, index):\n            x = x[index] if isinstance(x, BlockSeries) else x\n            if index[0] not in to_keep:\n                return x\n",
+  "        def diag(x, index):\n            if isinstance(x, BlockSeries):\n                x = x[(index[1], index[0], *index[2:])]\n            if index[0] not in to_keep:\n                return x\n", ["C01"])
+v("bd-diag-returns-series-itself", B, "        def diag(x, index):\n            x = x[index] if isinstance(x, BlockSeries) else x\n            if index[0] not in to_keep:\n                return x\n",
+  "        def diag(x, index):\n            if index[0] not in to_keep:\n                return x\n            x = x[index] if isinstance(x, BlockSeries) else x\n", ["C01"])
+v("ok-bd-index-checked-annotated", B, "    index_checked = set()\n", "    index_checked: set[tuple[int, ...]] = set()\n", [])
+v("ok-bd-last-block-named", B, "        if H.shape[0] - 1 in fully_diagonalize:\n", "        last_block = H.shape[0] - 1\n        if last_block in fully_diagonalize:\n", [])
+v("bd-last-block-off-by-one", B, "        if H.shape[0] - 1 in fully_diagonalize:\n", "        last_block = H.shape[0]\n        if last_block in fully_diagonalize:\n", ["C20"])
 # --------------------------------------------------------------------------- linalg.py
 L = "linalg"
 v("la-rmatvec-transpose", L, "return v - self._left_vecs @ (self._vecs.conj().T @ v)", "return v - self._left_vecs.conj() @ (self._vecs.T @ v)", ["C17", "C06"])
@@ -153,6 +162,16 @@ v("la-crosslink-wrong-slot", L, "                self._conjugate_operator._trans
 v("la-greens-unprojected-result", L, "        return kernel_projector @ result\n", "        return result\n", ["C16", "C06"])
 v("la-greens-pivots-not-zeroed", L, "        vec[pivot_rows] = 0\n", "", ["C16"])
 v("la-greens-unprojected-rhs", L, "        vec = kernel_projector @ vec\n        vec[pivot_rows] = 0\n", "        vec = vec.copy()\n        vec[pivot_rows] = 0\n", ["C16"])
+v("la-greens-recombination-sign", L, "result = sol[0] if len(sol) == 1 else sol[0] + 1j * sol[1]", "result = sol[0] if len(sol) == 1 else sol[0] - 1j * sol[1]", ["C16"])
+v("la-greens-split-for-complex-factorisation", L, "if np.iscomplexobj(vec) and not is_complex:", "if np.iscomplexobj(vec) and is_complex:", ["C16"])
+v("la-greens-imag-dropped", L, "result = sol[0] if len(sol) == 1 else sol[0] + 1j * sol[1]", "result = sol[0]", ["C16"])
+v("la-greens-zero-before-projection", L, "        vec = kernel_projector @ vec\n        vec[pivot_rows] = 0\n", "        vec = vec.copy()\n        vec[pivot_rows] = 0\n        vec = kernel_projector @ vec\n", ["C16"])
+v("la-constrain-mask-not-inverted", L, "keep = ~pivot_mask[constrained_coo.row]", "keep = pivot_mask[constrained_coo.row]", ["C16"])
+v("ok-la-greens-early-return", L, "        if np.iscomplexobj(vec) and not is_complex:\n            vec = (vec.real, vec.imag)\n        else:\n            vec = (vec,)\n\n        sol = []\n        for v in vec:\n            sol.append(solve(v))\n        result = sol[0] if len(sol) == 1 else sol[0] + 1j * sol[1]\n        return kernel_projector @ result\n",
+  "        if is_complex or not np.iscomplexobj(vec):\n            return kernel_projector @ solve(vec)\n        real_sol = solve(vec.real)\n        imag_sol = solve(vec.imag)\n        return kernel_projector @ (real_sol + 1j * imag_sol)\n", [])
+v("ok-la-greens-comprehension", L, "        sol = []\n        for v in vec:\n            sol.append(solve(v))\n", "        sol = [solve(v) for v in vec]\n", [])
+v("ok-la-constrain-complement-mask", L, "    pivot_mask = np.zeros(constrained.shape[0], dtype=bool)\n    pivot_mask[pivot_rows] = True\n", "    pivot_mask = np.ones(constrained.shape[0], dtype=bool)\n    pivot_mask[pivot_rows] = False\n",
+  [], extra=[(L, "keep = ~pivot_mask[constrained_coo.row]", "keep = pivot_mask[constrained_coo.row]")])
 v("la-hermitian-flag-too-wide", L, "left_vecs is None or left_vecs is vecs or np.array_equal(left_vecs, vecs)", "left_vecs is None or left_vecs is vecs or left_vecs.shape == vecs.shape", ["C17"])
 # benign
 v("ok-la-matvec-rewritten", L, "return v - self._vecs @ (self._left_vecs.conj().T @ v)", "return v - self._vecs @ (self._left_vecs.T.conj() @ v)", [])
@@ -190,6 +209,41 @@ v("ap-products-differ-between-families", P, "                hermitian=product.h
 v("ap-del-pops-start-values", P, "        if index in start_values.get(series_name, ()):\n            return\n", "", ["C09", "C10"], "re-introduces F10")
 v("ap-start-table-not-filled", P, "        start_values[term.name] = series_data or {}\n", "        start_values[term.name] = {}\n", ["C09", "C10"])
 v("ok-ap-del-guard-positive", P, "        if index in start_values.get(series_name, ()):\n            return\n        series[series_name].pop(index, None)\n        linear_operator_series[series_name].pop(index, None)", "        if index not in start_values.get(series_name, ()):\n            series[series_name].pop(index, None)\n            linear_operator_series[series_name].pop(index, None)", [])
+v("ok-ap-safe-divide-named-quotient", P, "    try:\n        return numerator / denominator\n    except TypeError:\n        return numerator * (1 / denominator)\n",
+  "    try:\n        quotient = numerator / denominator\n    except TypeError:\n        inverse = 1 / denominator\n        return numerator * inverse\n    return quotient\n", [])
+v("ap-safe-divide-fallback-inverted", P, "        return numerator * (1 / denominator)\n", "        return denominator * (1 / numerator)\n", ["C09"])
+v("ok-ap-identity-data-written-out", P, "    identity_data = {block + zeroth_order: one for block in diagonal}", "    identity_data = {(row, row) + zeroth_order: one for row in range(shape[0])}", [])
+v("ap-identity-data-offdiagonal", P, "    identity_data = {block + zeroth_order: one for block in diagonal}", "    identity_data = {(row, col) + zeroth_order: one for row in range(shape[0]) for col in range(shape[1])}", ["C09"])
+v("ok-ap-input-data-by-loop", P, """        **{
+            f"{name}{suffix}_data": {
+                block + zeroth_order: series[block + zeroth_order] for block in all_blocks
+            }
+            for name, series in series.items()
+            for suffix in ("_0", "")
+        },
+    }
+""", """    }
+    for name, input_series in series.items():
+        for suffix in ("_0", ""):
+            data[f"{name}{suffix}_data"] = {
+                block + zeroth_order: input_series[block + zeroth_order] for block in all_blocks
+            }
+""", [])
+v("ap-input-data-by-loop-suffix-lost", P, """        **{
+            f"{name}{suffix}_data": {
+                block + zeroth_order: series[block + zeroth_order] for block in all_blocks
+            }
+            for name, series in series.items()
+            for suffix in ("_0", "")
+        },
+    }
+""", """    }
+    for name, input_series in series.items():
+        for suffix in ("_1",):
+            data[f"{name}{suffix}_data"] = {
+                block + zeroth_order: input_series[block + zeroth_order] for block in all_blocks
+            }
+""", ["C09"])
 v("ap-del-single-cache", P, "        series[series_name].pop(index, None)\n        linear_operator_series[series_name].pop(index, None)", "        series[series_name].pop(index, None)", ["C06"])
 v("ok-ap-diagonal-adjoint-index", P, "slice=ast.Index(value=self._index(adjoint and (not self.diagonal))),", "slice=ast.Index(value=self._index(adjoint)),", [], "on diagonal blocks the swapped index equals the index")
 
